@@ -1092,7 +1092,7 @@ class FnItem:
                     self.imprecise.append("parameter `%s` is re-bound in the body while a proof hint mentions it" % pn)
         except StopIteration:
             pass
-        if re.search(r"\bas\s+f(64|32)\b", body):
+        if sp.get("screen_float_casts") and re.search(r"\bas\s+f(64|32)\b", body):
             # an integer -> float cast left in the text (no rewrite of the unit names it): this Verus gives it an arbitrary value
             self.imprecise.append("float cast `as f64` without a model")
         if getattr(self, "default_instantiated", False):
